@@ -632,6 +632,7 @@ type FnCtx struct {
 	loopPre        map[*ssa.BasicBlock]*State // state in which each loop was entered
 	afterCall      map[string]*State          // state in which the first call of a callee (by short name) returned
 	afterCallBlock map[string]*ssa.BasicBlock
+	afterCallReach map[string]string // path condition under which that call is reached
 	iterPre        map[*ssa.BasicBlock]*State // state at the start of the iteration (after the loop-head havoc)
 	hdrVars        map[*ssa.BasicBlock]map[string]Val
 	noPanic        bool
